@@ -2,5 +2,6 @@ package ledgerstore
 
 var zzRegistry = map[string]func(int){
 	"ZZ_C17Cursor": ZZ_C17Cursor,
+	"ZZ_C17Filter": ZZ_C17Filter,
 	"ZZ_C20":       ZZ_C20,
 }
